@@ -8,6 +8,10 @@ ids = [p["id"] for p in props]
 
 # id -> (engine, technique, level text, level note, design ref)
 CHECKS = {
+ "C13": ("E3", "explicit-state BFS to closure over histories of real endorse.VirtualFirmware runs (3 images x 3 names x overwrite x snapshot), canonical manifest/file state, invariants per state and per transition; plus exhaustive small-scope check of the merge function against a two-map reference",
+         "The closure of reachable manifest/file states (891 canonical states per back end, 36 actions from each) is explored through the real signing and commit path over an in-memory version-control double and over localnonvcs on disk; in every state the manifest parses, paths and digests are unique and every entry names an existing file endorsing the listed digest; on every transition the latest run is indexed under the file it wrote and no endorsement file is replaced without overwrite. The unexported merge function is additionally compared with a two-map reference on all manifests of <=3 entries.",
+         "Trusted: pools of 3 images x 3 names contain every case of the four-way merge (larger pools add no new abstract state); canonical form ignores timestamps and signature bytes; the merge sub-check needs the overlay export (degraded otherwise).",
+         "DESIGN.md#c13"),
  "C12": ("E3", "explicit-state breadth-first search over histories of the real CLI commands (bootstrap/rotate/wipeout with flag variants) on cloned worlds, canonical-state deduplication, invariants evaluated in every state and on every transition",
          "From the empty world every sequence of 8 (thorough: 12) command variants up to depth 4 (thorough: 5) is executed through cmd.MakeApp for memkm+memca, memkm+gcsca and localkm+localca; in every reached state the root and signing certificate profiles, lifetimes, serial arithmetic, issuer, no-clobber, key liveness, naming and wipeout clauses of the statement are checked from certificates and keys read back from durable state.",
          "Trusted: canonical form drops key bits and signatures (no command branches on them); Cloud KMS manager is covered by C20; naming epochs restart at bootstrap and key wipeout (loosest reading that keeps content, see assumptions in evidence).",
